@@ -643,6 +643,7 @@ class StateInit(_Struct):
         # attribute names are distinct keys of the dict (well-formedness)
         st.assume(QFact(lambda i: z3.Implies(z3.And(p["lo"] <= i, i < p["hi"]),
                                              z3.And(z3.Select(p["has"], z3.Select(p["keys"], i)),
+                                                    V.is_str(z3.Select(p["keys"], i)),      # names of annotations
                                                     z3.Select(p["pos"], z3.Select(p["keys"], i)) == i)),
                         pattern=lambda i: z3.Select(p["keys"], i), name="aw"))
         self.kwargs = st.sym_ref("kwargs", "dict")
